@@ -72,3 +72,22 @@ Definition c09_excl_ok (tr : trace) : bool :=
   match run excl_step (mkME [] [] []) tr with Some _ => true | None => false end.
 
 Definition c09_excl_fail_at (tr : trace) : option nat := first_reject excl_step (mkME [] [] []) tr 0.
+
+(** ** A picked target gets the request
+
+    [c09_handoff_ok]: a request for which the balancer picked a target (KLbClaim with a target) is either claimed by
+    that target (KClaim) or refused by it because it is draining (KClaimRefused, emitted only on that branch) before it
+    is answered: nothing else may turn a pick into an error page. *)
+Definition hand_step (pend : list nat) (e : event) : option (list nat) :=
+  match e_k e with
+  | KLbClaim _ (Some _) r => Some (r :: nremove r pend)
+  | KLbClaim _ None r => Some (nremove r pend)
+  | KClaim _ r | KClaimRefused _ r => Some (nremove r pend)
+  | KRespond r _ _ => if nmem r pend then None else Some pend
+  | _ => Some pend
+  end.
+
+Definition c09_handoff_ok (tr : trace) : bool :=
+  match run hand_step [] tr with Some _ => true | None => false end.
+
+Definition c09_handoff_fail_at (tr : trace) : option nat := first_reject hand_step [] tr 0.
